@@ -22,6 +22,8 @@ StopAtFirstError == (Live /\ Rec.failFile # 0) =>
 \* one have been written when the failure is met (an implementation that renders every file before it
 \* writes any keeps the property and writes none of them)
 WritesUpToFailure == (Live /\ Rec.failFile # 0) => \A i \in DOMAIN Rec.written : (i < Rec.failFile) => Rec.written[i]
-AllWrittenOnSuccess == (Live /\ Rec.failFile = 0) => (~Rec.err /\ \A i \in DOMAIN Rec.written : Rec.written[i])
+\* (a file that already holds its print need not be touched: what the property asks for is what is on disk
+\* afterwards, and a write of identical bytes cannot be told from no write)
+AllWrittenOnSuccess == (Live /\ Rec.failFile = 0) => (~Rec.err /\ \A i \in DOMAIN Rec.written : Rec.written[i] \/ Rec.own[i])
 Accepted == TLCGet("stats").diameter = Len(Trace) + 1
 =============================================================================
